@@ -267,7 +267,14 @@ class IMMachine(FormatMachine):
         inplace = op.get("inplace") or []
         for f in IMG_FIELDS:
             if f in op["attrs"] and f not in inplace:
-                setattr(img, f, copy.deepcopy(op["attrs"][f]))
+                val = copy.deepcopy(op["attrs"][f])
+                if f == "checksums" and "ck_order" in op and isinstance(val, dict):
+                    # the caller's mapping is a dict SUBCLASS filled in its own order (ops are stored with sorted keys)
+                    import random as _random
+                    keys = sorted(val)
+                    _random.Random(op["ck_order"]).shuffle(keys)
+                    val = collections.OrderedDict((k, val[k]) for k in keys)
+                setattr(img, f, val)
         # fields listed in `inplace` are NOT assigned: the object's own default container is filled in place
         # (checksums through add_checksum, additional_variants through append) - what a caller who never assigns would do
         if "checksums" in inplace and isinstance(op["attrs"].get("checksums"), dict) and isinstance(img.checksums, dict):
